@@ -74,6 +74,8 @@ PartialTranspose(M, dims, sysa) ==
 
 (* ----------------------------- named generators ------------------------- *)
 BasisVec(dims, digits) == [n \in 1..Size(dims) |-> IF n - 1 = Flat(digits, dims) THEN GOne ELSE GZero]
+\* MPS_computational_state of a string over  0 1 + -  (coded 0 1 2 3), each + / - taken times sqrt(2)
+CompChar(c) == CASE c = 0 -> <<GOne, GZero>> [] c = 1 -> <<GZero, GOne>> [] c = 2 -> <<GOne, GOne>> [] OTHER -> <<GOne, GNeg(GOne)>>
 \* tensor product of the single-site vectors vs[1], ..., vs[L]
 ProductVec(dims, vs) ==
   [n \in 1..Size(dims) |-> ProdG(LAMBDA k : vs[k][Digit(n - 1, dims, k) + 1], 1, Len(dims))]
@@ -104,7 +106,7 @@ FitSweeping == {"fit", "fit-zipup", "fit-projector"}
 \* methods that are only claimed to reproduce the input to the tolerance of an iteration
 FitType == FitSweeping \cup {"fit-oversample"}
 \* the canonical (optimal truncation) routes for which the error bound is claimed
-Canonical == {"direct", "mps.compress"}
+Canonical == {"direct", "mps.compress", "mps.compress_site"}
 
 \* last letter of the sweep sequence that is cycled `iters` times
 LastSweep(seq, iters) == seq[((iters - 1) % Len(seq)) + 1]
@@ -113,7 +115,8 @@ LastSweep(seq, iters) == seq[((iters - 1) % Len(seq)) + 1]
 \*  - every sweep method: site_tags[0] (right canonical), or site_tags[-1] if sweep_reverse;
 \*  - the variational fit: the end its last sweep ran to ("L": site_tags[0], "R": site_tags[-1]),
 \*    the opposite if sweep_reverse;
-\*  - MatrixProductState.compress(form): 'right' -> site 0, 'left' -> site L-1, an integer -> that site.
+\*  - MatrixProductState.compress(form): 'right' -> site 0, 'left' -> site L-1, an integer -> that site;
+\*  - MatrixProductState.compress_site(i): site i (only the two bonds next to it are compressed).
 \* 0 = no promise.
 PromisedCentre(c, L) ==
   IF c.method \in FitSweeping
@@ -121,6 +124,8 @@ PromisedCentre(c, L) ==
   ELSE IF c.method \in Methods1D THEN (IF c.rev THEN L ELSE 1)
   ELSE IF c.method = "mps.compress"
     THEN (CASE c.form = "right" -> 1 [] c.form = "left" -> L [] c.form = "flat" -> 0 [] OTHER -> c.site + 1)
+  \* compress_site(i): "by default first setting the orthogonality center to that site"
+  ELSE IF c.method = "mps.compress_site" THEN c.site + 1
   ELSE 0
 
 \* centre at c: everything left of it is a left isometry, everything right of it a right isometry
